@@ -1097,22 +1097,34 @@ func (m *Nitro) StoreToDisk(dir string, snap *Snapshot, concurr int, itmCallback
 		snap = &fakeSnap
 
 		defer func() {
-			if err = m.changeDeltaWrState(dwStateTerminate, nil, nil); err == nil {
+			// An error of the backup itself must not be replaced by the result
+			// of the delta termination.
+			derr := m.changeDeltaWrState(dwStateTerminate, nil, nil)
+			if derr == nil {
+				// The delta files have to be complete on disk before their
+				// manifests declare the backup restorable.
+				for id, dwr := range deltaWriters {
+					deltaChecksums[id] = dwr.Checksum()
+					if cerr := dwr.Close(); cerr != nil && derr == nil {
+						derr = cerr
+					}
+					deltaWriters[id] = nil
+				}
+			}
+			if derr == nil {
 				bs, _ := json.Marshal(deltaFiles)
-				if err = vfs("writefile", filepath.Join(deltadir, "files.json")); err != nil {
-					return
+				if derr = vfs("writefile", filepath.Join(deltadir, "files.json")); derr == nil {
+					derr = ioutil.WriteFile(filepath.Join(deltadir, "files.json"), bs, 0660)
 				}
-				err = ioutil.WriteFile(filepath.Join(deltadir, "files.json"), bs, 0660)
-				if err == nil {
-					for id, dwr := range deltaWriters {
-						deltaChecksums[id] = dwr.Checksum()
-					}
+				if derr == nil {
 					bs, _ = json.Marshal(deltaChecksums)
-					if err = vfs("writefile", filepath.Join(deltadir, "checksums.json")); err != nil {
-						return
+					if derr = vfs("writefile", filepath.Join(deltadir, "checksums.json")); derr == nil {
+						derr = ioutil.WriteFile(filepath.Join(deltadir, "checksums.json"), bs, 0660)
 					}
-					err = ioutil.WriteFile(filepath.Join(deltadir, "checksums.json"), bs, 0660)
 				}
+			}
+			if err == nil {
+				err = derr
 			}
 		}()
 	}
@@ -1140,15 +1152,26 @@ func (m *Nitro) StoreToDisk(dir string, snap *Snapshot, concurr int, itmCallback
 	}
 	if err = ioutil.WriteFile(filepath.Join(manifestdir, "nitro.json"), manifest, 0660); err == nil {
 		if err = m.Visitor(snap, visitorCallback, shards, concurr); err == nil {
+			// Flush and close the data files before the manifests are written:
+			// most of the bytes are still buffered, and a failed write must
+			// make the backup fail instead of leaving a manifest behind.
+			for id, wr := range writers {
+				checksums[id] = wr.Checksum()
+				if cerr := wr.Close(); cerr != nil && err == nil {
+					err = cerr
+				}
+				writers[id] = nil
+			}
+			if err != nil {
+				return err
+			}
+
 			bs, _ := json.Marshal(files)
 			if err = vfs("writefile", filepath.Join(datadir, "files.json")); err != nil {
 				return err
 			}
 			err = ioutil.WriteFile(filepath.Join(datadir, "files.json"), bs, 0660)
 			if err == nil {
-				for id, wr := range writers {
-					checksums[id] = wr.Checksum()
-				}
 				bs, _ = json.Marshal(checksums)
 				if err = vfs("writefile", filepath.Join(datadir, "checksums.json")); err != nil {
 					return err
